@@ -88,6 +88,17 @@ SumOf(ts) == IF Len(ts) = 0 THEN KI(0) ELSE IF Len(ts) = 1 THEN ts[1] ELSE N("Su
 Opt(k, v) == IF k = 0 THEN << >> ELSE << TermOf(k, v) >>
 Lhs(q) == SumOf(Opt(q.a1, x) \o Opt(q.a2, y) \o Opt(q.l, pp))
 Rhs(q) == SumOf(Opt(q.r1, x) \o Opt(q.b, pp) \o (IF q.c = 0 THEN << >> ELSE << KI(q.c) >>))
+\* The parameter of a system is an opaque leaf that is not an unknown: a variable of another name,
+\* an attribute access whose ATTRIBUTE is spelt like an unknown (o.x is not x), a subscript, a
+\* variable whose name merely starts like an unknown.  The meaning of the system does not depend
+\* on which: the equations are stated over p and the chosen form is written in its place
+\* (InPar); in what the solver returned the form is read back as p (OutPar).
+ParForms == << pp, Look(V("o"), "x"), Look(V("o"), "y"), B("Sub", V("a"), KI(0)), V("xy") >>
+RECURSIVE Repl(_, _, _)
+Repl(e, from, to) ==
+    IF e = from THEN to ELSE WithKids(e, [i \in 1..Len(Kids(e)) |-> Repl(Kids(e)[i], from, to)])
+InPar(e, par) == IF par = pp THEN e ELSE Repl(e, pp, par)
+OutPar(e, par) == IF par = pp THEN e ELSE Repl(e, par, pp)
 Det2(q1, q2) == (q1.a1 - q1.r1) * q2.a2 - q1.a2 * (q2.a1 - q2.r1)
 
 RECURSIVE SubstVars(_, _)
@@ -97,10 +108,14 @@ SubstVars(e, sol) ==
     THEN sol[CHOOSE i \in 1..Len(sol) : sol[i].name = e.name].e
     ELSE WithKids(e, [i \in 1..Len(Kids(e)) |-> SubstVars(Kids(e)[i], sol)])
 
-JudgeSolve(eqs, unknowns, res) ==
+JudgeSolve(eqs, unknowns, res0, par) ==
     \* one equation for the two unknowns is under-determined: like a singular 2x2 system it
     \* determines no unique values
-    LET det == IF Len(eqs) = 2 THEN Det2(eqs[1], eqs[2]) ELSE 0 IN
+    LET det == IF Len(eqs) = 2 THEN Det2(eqs[1], eqs[2]) ELSE 0
+        res == IF res0.r = "ok"
+               THEN [res0 EXCEPT !.sol = [i \in 1..Len(res0.sol) |->
+                                           [name |-> res0.sol[i].name, e |-> OutPar(res0.sol[i].e, par)]]]
+               ELSE res0 IN
     IF res.r = "unser" THEN "SKIP"
     ELSE IF res.r = "err" THEN "REFUSED"
     ELSE IF \E i \in 1..Len(unknowns) : ~\E j \in 1..Len(res.sol) : res.sol[j].name = unknowns[i]
